@@ -184,7 +184,38 @@ def rule_L(run, prog):
                                    "object then answers look-ups (at, locate, nearest) from the old start and step - values are found "
                                    "at the wrong points or 'out of bounds'" % (f.short, obj, ", ".join(obj + "." + a for a in missing)),
                            loc=f.loc(att["data"]), sample={"axis": obj})
-    if n < 5:
+    # (iii) the points read from the file are in the units current for the caller, and the setters of a frequency axis
+    # convert what they are given.  Points and start convert element by element; a step is a *difference*, and the
+    # difference of two values in a reciprocal unit (nm) converts to nothing meaningful: the step is computed from the
+    # internal values, i.e. inside an energy_units("int") block and not from the parameter.
+    from ..loader import parents_map
+    for f in prog.all_functions():
+        if ".tests." in f.qualname or ".wizard." in f.qualname or not hasattr(f.node, "args"):
+            continue
+        params = {a.arg for a in f.node.args.args[1:]}
+        pm = None
+        for st in walk_no_nested(f.node):
+            if not (isinstance(st, ast.Assign) and len(st.targets) == 1 and isinstance(st.targets[0], ast.Attribute)
+                    and st.targets[0].attr == "step" and isinstance(st.targets[0].value, ast.Name)
+                    and st.targets[0].value.id in params and "axis" in st.targets[0].value.id.lower()):
+                continue
+            n += 1
+            prog.consulted.add(f.relpath)
+            pm = pm or parents_map(f.node)
+            inside = False
+            p_ = pm.get(st)
+            while p_ is not None:
+                if isinstance(p_, ast.With) and any(norm(i.context_expr).replace('"', "'") == "energy_units('int')" for i in p_.items):
+                    inside = True
+                p_ = pm.get(p_)
+            from_param = any(isinstance(x, ast.Name) and x.id in params and x.id != st.targets[0].value.id for x in ast.walk(st.value))
+            is_diff = any(isinstance(x, ast.BinOp) and isinstance(x.op, ast.Sub) for x in ast.walk(st.value))
+            ok = inside or not (from_param and is_diff)
+            run.obligation(rid, f.short, ok, key="axis-step-internal:" + st.targets[0].value.id,
+                           message="%s assigns `%s`: a difference of two values given in the caller's units goes through the "
+                                   "converting setter of the step - under a reciprocal unit (nm) the axis read back has another "
+                                   "step than the one exported" % (f.short, norm(st)[:70]), loc=f.loc(st))
+    if n < 6:
         raise AnalysisError("C18-L: only %d text readers/writers and axis assignments found" % n)
 
 
